@@ -79,9 +79,14 @@ package bgp
 //@   loop 0 decreases capLen
 //@   ensures err == nil ==> len(data) >= 2 + int(c.CapLen)
 //@ func (*CapLongLivedGracefulRestart).DecodeFromBytes
+//@   tag C05 C04
 //@   modifies c.*
 //@   loop 0 invariant len(data) >= i && i >= 0
 //@   loop 0 decreases i
+// from C04: every 7-octet tuple is taken over field by field (AFI, SAFI, flags, 24-bit stale time)
+//@   loop 0 step len(c.Tuples) == header(len(c.Tuples)) + 1
+//@   loop 0 step int(c.Tuples[len(c.Tuples)-1].AFI) == header(int(data[0])*256 + int(data[1])) && c.Tuples[len(c.Tuples)-1].SAFI == header(data[2]) && c.Tuples[len(c.Tuples)-1].Flags == header(data[3])
+//@   loop 0 step int(c.Tuples[len(c.Tuples)-1].RestartTime) == header(int(data[4])*65536 + int(data[5])*256 + int(data[6]))
 //@   ensures err == nil ==> len(data) >= 2 + int(c.CapLen)
 //@ func (*CapFQDN).DecodeFromBytes
 //@   requires len(c.CapValue) == 0
